@@ -42,10 +42,9 @@ class SiteModel:
         return [o for o in self.objs if o.kind == "menu" and (full or not o.needs_full)]
 
 
-MIME_BY_EXT = {".txt": "text/plain", ".html": "text/html", ".gif": "image/gif",
-               ".jpg": "image/jpeg", ".png": "image/png", ".pdf": "application/pdf",
-               ".mp3": "audio/mpeg", ".xyz": None, "": None, ".c": None, ".css": "text/css",
-               ".hqx": "application/mac-binhex40", ".ps": "application/postscript"}
+from vf import mimeref
+
+MIME_BY_EXT = {e: mimeref.mime_for_ext(e) for e in mimeref.KNOWN_EXTS + mimeref.UNKNOWN_EXTS}
 
 
 def gen_site(rng: random.Random, scratch: str, name_classes=("plain", "spaces", "reserved",
@@ -103,7 +102,8 @@ def gen_site(rng: random.Random, scratch: str, name_classes=("plain", "spaces", 
     m.add(b"/gm/local.txt", "doc", b"local\n", mime="text/plain", tags=["file"])
     t.file("gm/gophermap",
            "Welcome to the map\n\n0Local file\tlocal.txt\n0Absolute\t/umn/one.txt\n"
-           "1Remote dir\t/x\tgopher.example.org\t70\n1Up\t/umn\nhWeb\tURL:http://example.org/a?b=c\n")
+           "1Remote dir\t/x\tgopher.example.org\t70\n1Up\t/umn\nhWeb\tURL:http://example.org/a?b=c\n"
+           "7Search it\t/gm/local.txt\n")
     if with_mail:
         subj = ["Hello world", "Re: A & B <tag>", "third  message"]
         t.file("mail.mbox", trees.make_mbox(subj, scratch))
